@@ -38,6 +38,7 @@ from common import cstr, clist, cbool, copt, cpair, cz, cn
 THEOREMS = [
     'C09_normalize_float_normal_form', 'C09_normalize_float_classes',
     'C09_normalize_float_exponent_padding_refuted', 'C09_normal_form_fixed',
+    'C09_normalize_float_idempotent', 'C09_parse_material_density_fixed',
     'C09_parse_material_classes', 'C09_pot_fill_provenance',
     'C09_provenance_head_is_leaf', 'C09_lattice_elements', 'C09_geomcomp_name',
     'C09_geomcomp_one_line', 'C09_geomcomp_lines', 'C09_compositions_exact',
@@ -78,9 +79,9 @@ ASSUMPTIONS = [
     'existing key (true of construct_volume_t4: free_key = max key + 1); the '
     'statement is conditional on pot_fill returning (no RecursionError)',
     'C09_compositions_exact / C09_geomcomp_name_has_composition: the stored '
-    'densities are fixed points of normalize_float (proved for well-formed '
-    'numbers, C09_normal_form_fixed; tied exhaustively for all strings of '
-    'length <= 6/7 over the small alphabet) and the material token is the '
+    'densities are fixed points of normalize_float (proved for every string '
+    'parse_material can store: C09_normalize_float_idempotent, '
+    'C09_parse_material_density_fixed) and the material token is the '
     'canonical decimal spelling of its number '
     '(C09_material_leading_zero_refuted otherwise)',
 ]
